@@ -321,7 +321,7 @@ CLAIMS.update({
               'type, .line.file and .line.number must be the planted line\'s, ~10 % also through the CLI; the Lean model must reply the '
               'same error location. Whole programs (C15Program.lean): fault_reported_at_its_line - one faulty item of a listed class anywhere between good items (good = assembles in every context: the surroundings may define labels but contain no constant definitions and no references to labels) '
               '(any labels, data, aligns, instructions, pseudo-instructions that assemble in every context) makes assembleItems fail with the assembler\'s error '
-              'carrying that item\'s line, with and without compression; one instance per class; first_fault_wins_*: which of two faults is reported. Text level (C15Text.lean): fault_reported_text - assembleText of a source text fails with the assembler error whose line number is the 1-based index of the faulty line and whose contents are that line of the text (LineOfFile now ties number to text); fault_text_example: a 6-line source whose 4th line addi x5, x6, 2048 is reported, both modes.'),
+              'carrying that item\'s line, with and without compression; one instance per class; first_fault_wins_*: which of two faults is reported. Text level (C15Text.lean): fault_reported_text - assembleText of a source text fails with the assembler error whose line number is the 1-based index of the faulty line and whose contents are that line of the text (LineOfFile now ties number to text); fault_text_example: a 6-line source whose 4th line addi x5, x6, 2048 is reported, both modes; C15Include.lean: fault_reported_in_include / fault_reported_in_tree - a fault inside an included file is reported with the path the include search produced, its line number in that file and that line\'s text (instance: /r/sub/f.asm line 2).'),
         note=TB + ' Wrong operand counts, unknown mnemonics / pack formats, align 0 and include cycles are not among the listed classes and are not planted. For a duplicated label either definition\'s line satisfies the oracle; the model demands the second. The whole-pipeline statement is proved for one fault among context-independent good items (GoodItem); surroundings whose own success depends on the layout are covered by the planted-fault runs only.',
         ref='DESIGN.md §5 C15'),
     'C16': dict(
